@@ -163,6 +163,14 @@ theorem pipeline_automaton_depth (G : Grammar) (K fuel A k : Nat) (c : LaDfa) (h
     have := uniteAll_k hd (j, S) hS t' ((hmem t').2 ht')
     omega
 
+/-- **What the tables denote, without any hypothesis**: the production table of every successful
+    run of the generator is the grammar with each non-terminal replaced by its position in the
+    alphabetical non-terminal list (`ntIndex`, the identity for dense numbers — then this is
+    `gOf T = G` of `pipeline_tables_exact`). -/
+theorem pipeline_tables_denote (G : Grammar) (K fuel : Nat) (T : LLTables)
+    (h : genTables G K fuel = .ok T) : gOf T = renameG (ntIndex G) G :=
+  genTables_gOf h
+
 /-- **No false conflict**: for a grammar of the class the generator never answers `Conflict in union
     operation` — when `decidable` found the lookahead sets of a non-terminal pairwise disjoint, the
     tries of its alternatives unite without clash (C07 `unite_no_false_conflict` at C05's sets). -/
